@@ -78,6 +78,8 @@ func renderTok(t M) string {
 		return "/" + strings.Replace(s, "/", `\/`, -1) + "/"
 	case "bp":
 		return "$" + s
+	case "dur":
+		return strings.Replace(s, "{MICRO}", "µ", -1)
 	}
 	return s // int num dur p raw
 }
